@@ -108,6 +108,47 @@ def search(ck, tier, seed):
                                                                          "" if direction == "forward" else ":inverse"),
                                            "%s (%s): d/d%s[%d]: autograd %r, finite difference %r" % (e["name"], direction, nm, i, a, d), case)
                                 break
+    # exact special inputs (0, +-1, +-0.5): random draws never hit them, but formulas evaluated on unselected branches
+    # (0/0, 0 * inf under torch.where) poison the gradient there.  Finite outputs must come with finite gradients.
+    for e in catalogue.entries(tier):
+        if e["dom"] != "real" or e["umnn"]:
+            continue
+        t = attempt(catalogue.build, e, seed, torch.float64, False)
+        if t[0] != "ok":
+            continue
+        t = t[1]
+        x0, ctx0 = catalogue.sample_inputs(e, 2, seed + 33)
+        vals = torch.tensor([0.0, 1.0, -1.0, 0.5, -0.5], dtype=torch.float64)
+        xs = vals[torch.arange(x0.numel()) % 5].reshape(x0.shape)
+        for direction in ("forward", "inverse"):
+            fn = t if direction == "forward" else t.inverse
+            x = xs.clone().requires_grad_(True)
+            ck.case(("c16-special", e["name"], direction), nontrivial=True)
+            case = {"search": "special-points", "entry": e["name"], "direction": direction}
+            r = attempt(fn, x, ctx0)
+            if r[0] != "ok":
+                continue
+            y, lad = r[1]
+            if not (bool(torch.isfinite(y).all()) and bool(torch.isfinite(lad).all())):
+                continue
+            params = [p_ for p_ in t.parameters() if p_.requires_grad]
+            gr = attempt(torch.autograd.grad, y.sum() + lad.sum(), [x] + params, allow_unused=True)
+            if gr[0] != "ok":
+                if "backward through the graph a second time" in str(gr[2]) and any(hasattr(m_, "cache") for m_ in t.modules()):
+                    # the defect recorded under C10 (cache:double-backward): the cached matrix keeps its graph
+                    ck.finding("gradient:second-backward-through-cached-weight",
+                               "%s %s in evaluation mode with the cache on: %s" % (e["name"], direction, str(gr[2])[:120]), case)
+                else:
+                    ck.finding("gradient:backward-fails:%s:%s" % (e["name"], direction), "%s at exact inputs 0, +-1, +-0.5: %s %s" % (e["name"], gr[1], gr[2]), case)
+                continue
+            for k, gv in enumerate(gr[1]):
+                if gv is not None and not bool(torch.isfinite(gv).all()):
+                    bad = xs.reshape(-1)[~torch.isfinite(gv).reshape(-1)][:3].tolist() if k == 0 else None
+                    ck.finding("gradient:non-finite-at-special-input:%s:%s" % (e["name"], direction),
+                               "%s %s: finite outputs but non-finite gradient w.r.t. %s%s" % (
+                                   e["name"], direction, "the input" if k == 0 else "parameter %d" % (k - 1),
+                                   " at x = %s" % bad if bad else ""), case)
+                    break
     # flows: log_prob gradients w.r.t. parameters, inputs and context
     from nflows.flows.base import Flow
     from nflows.distributions import normal
